@@ -441,7 +441,9 @@ func (r *transport) handleStaleWhileRevalidate(
 	//
 	// Open a discussion at github.com/bartventer/httpcache/issues if your use case requires
 	// guaranteed completion.
-	go r.backgroundRevalidate(req2, stored, urlKey, freshness, ccReq)
+	// The caller owns the response that is returned below; the background goroutine gets
+	// only the entry's id and reads its own copy from the store.
+	go r.backgroundRevalidate(req2, stored.ID, urlKey, freshness, ccReq)
 	if noCacheQualified {
 		// Qualified no-cache: the nominated fields must not be replayed without validation
 		for field := range noCacheFieldsSeq {
@@ -462,7 +464,7 @@ func (r *transport) handleStaleWhileRevalidate(
 
 func (r *transport) backgroundRevalidate(
 	req *http.Request,
-	stored *internal.Response,
+	storedID string,
 	urlKey string,
 	freshness *internal.Freshness,
 	ccReq internal.CCRequestDirectives,
@@ -484,6 +486,12 @@ func (r *transport) backgroundRevalidate(
 			errc <- req.Context().Err()
 			return
 		default:
+		}
+		// Private copy: the entry served to the caller must not be touched any more.
+		stored, err := r.cache.Get(storedID, req)
+		if err != nil {
+			errc <- err
+			return
 		}
 		revalCtx := internal.RevalidationContext{
 			URLKey:    urlKey,
